@@ -488,6 +488,67 @@ theorem C15_nth_minimal (syms : List α) (s : α) (n : Int) (hn : 1 ≤ n) (hs :
     have h := nthEndDFA_minimal syms s n.toNat hs (by omega) t ht hts
     exact ⟨rfl, by simp [nthEndDFA], h, C15_minimal_of_shape _ hwf h⟩
 
+/-- Over a one-symbol alphabet `nth_from_start` / `nth_from_end` delegate to
+`of_length(min_length = n)`: `n + 1` states, minimal as well. -/
+theorem C15_nth_minimal_single (syms : List α) (s : α) (n : Int) (hn : 1 ≤ n) (hs : s ∈ syms)
+    (hlen : syms.length = 1) :
+    (∀ d, nthFromStart syms s n = .ok d →
+      d.allowPartial = false ∧ d.states.length = n.toNat + 1 ∧ MinimalShape d ∧ MinimalAmongComplete d) ∧
+    (∀ d, nthFromEnd syms s n = .ok d →
+      d.allowPartial = false ∧ d.states.length = n.toNat + 1 ∧ MinimalShape d ∧ MinimalAmongComplete d) := by
+  have hne : syms ≠ [] := by rintro rfl; cases hs
+  have hdis : isDisjoint syms ((none : Option (List α)).getD syms) = false := by
+    rw [isDisjoint_eq_false_iff]; exact ⟨s, hs, hs⟩
+  have key : ∀ d, ofLength syms n none none = .ok d →
+      d.allowPartial = false ∧ d.states.length = n.toNat + 1 ∧ MinimalShape d ∧ MinimalAmongComplete d := by
+    intro d hd
+    obtain ⟨h1, h2, h3⟩ := C15_of_length_minimal syms n none none d hd
+    have h4 := C15_of_length_size syms n none none d hd
+    rw [hdis] at h4
+    exact ⟨h1, by simpa [emptyRange] using h4, h2, h3⟩
+  constructor
+  · intro d hd
+    rw [nthFromStart_eq_single syms s n hn hs hlen] at hd
+    exact key d hd
+  · intro d hd
+    rw [nthFromEnd_eq_single syms s n hn hs hlen] at hd
+    exact key d hd
+
+/-- Minimality of `nth_from_start` / `nth_from_end` over **every** alphabet (a Python set:
+duplicate-free) containing the symbol: one symbol (`C15_nth_minimal_single`) or more
+(`C15_nth_minimal`). -/
+theorem C15_nth_minimal_all (syms : List α) (hsyms : syms.Nodup) (s : α) (n : Int) (hn : 1 ≤ n)
+    (hs : s ∈ syms) :
+    (∀ d, nthFromStart syms s n = .ok d →
+      d.allowPartial = false ∧ MinimalShape d ∧ MinimalAmongComplete d) ∧
+    (∀ d, nthFromEnd syms s n = .ok d →
+      d.allowPartial = false ∧ MinimalShape d ∧ MinimalAmongComplete d) := by
+  by_cases hlen : syms.length = 1
+  · obtain ⟨h1, h2⟩ := C15_nth_minimal_single syms s n hn hs hlen
+    exact ⟨fun d hd => let ⟨a, _, b, c⟩ := h1 d hd; ⟨a, b, c⟩,
+      fun d hd => let ⟨a, _, b, c⟩ := h2 d hd; ⟨a, b, c⟩⟩
+  · obtain ⟨t, ht, hts⟩ : ∃ t ∈ syms, t ≠ s := by
+      cases syms with
+      | nil => cases hs
+      | cons a rest =>
+        cases rest with
+        | nil => exact absurd rfl hlen
+        | cons b rest' =>
+          have hab : a ≠ b := by
+            intro e
+            rw [List.nodup_cons] at hsyms
+            exact hsyms.1 (by simp [e])
+          by_cases h : a = s
+          · exact ⟨b, by simp, fun e => hab (h.trans e.symm)⟩
+          · exact ⟨a, by simp, h⟩
+    obtain ⟨h1, h2⟩ := C15_nth_minimal syms s n hn hs t ht hts
+    exact ⟨fun d hd => let ⟨a, _, b, c⟩ := h1 d hd; ⟨a, b, c⟩,
+      fun d hd => let ⟨a, _, b, c⟩ := h2 d hd; ⟨a, b, c⟩⟩
+
+example : ∀ d, nthFromStart ['a'] 'a' 3 = .ok d →
+    d.allowPartial = false ∧ d.states.length = (3 : Int).toNat + 1 ∧ MinimalShape d ∧ MinimalAmongComplete d :=
+  (C15_nth_minimal_single ['a'] 'a' 3 (by decide) (by decide) rfl).1
+
 example : Builds (nthFromEnd ['a', 'b'] 'a' 2) ['a', 'b']
     (fun w => (2 : Int).toNat ≤ w.length ∧ w[w.length - (2 : Int).toNat]? = some 'a') :=
   C15_nth_from_end _ _ 2 (by decide) (by decide)
